@@ -192,6 +192,16 @@ def _health_corrupt(evs, profile):
     return None
 
 
+def _chaos_corrupt(evs, profile):
+    out = [dict(e) for e in evs]
+    # instance B decides differently from instance A for one request
+    for e in out:
+        if e.get('e') == 'req' and e.get('inst') == 'B':
+            e['d'] = e['d'] + 1
+            return out
+    return None
+
+
 COMPONENTS = {
     'bulkhead': {
         'spec_files': ['Bulkhead.tla', 'MC_Bulkhead.tla', 'Trace_Bulkhead.tla'],
@@ -318,6 +328,14 @@ COMPONENTS = {
         'random': {'quick': [{'runs': 0}], 'thorough': [{'runs': 0}]},
         'corrupt': _health_corrupt,
     },
+    'chaos': {
+        'spec_files': ['Chaos.tla', 'MC_Chaos.tla', 'Trace_Chaos.tla'],
+        'mc': {'quick': [{'cfg': 'MC_Chaos.cfg', 'module': 'MC_Chaos'}], 'thorough': [{'cfg': 'MC_Chaos.cfg', 'module': 'MC_Chaos'}]},
+        'trace_module': 'Trace_Chaos', 'trace_cfg_tmpl': 'Trace_Chaos.cfg.tmpl',
+        'harness': 'chaos',
+        'random': {'quick': [{'runs': 0}], 'thorough': [{'runs': 0}]},
+        'corrupt': _chaos_corrupt,
+    },
 }
 
 PROPS = {
@@ -340,6 +358,7 @@ PROPS = {
     'C10': {'comp': 'cache', 'profile': 'full'},
     'C11': {'comp': 'coalesce', 'profile': 'full'},
     'C18': {'comp': 'health', 'profile': 'full'},
+    'C19': {'comp': 'chaos', 'profile': 'full'},
     'C02': {'comp': 'ratelimiter', 'profile': 'ProfC02', 'drift_profile': 'ProfAll'},
     'C15': {'comp': 'ratelimiter', 'profile': 'ProfC15', 'drift_profile': 'ProfAll'},
 }
